@@ -75,31 +75,34 @@ def main():
     if not res.get("patch_applies"):
         print(json.dumps(res))
         return
-    # ---- against the checks, in /repo itself
-    rc, out = sh("git -C /repo status --porcelain")
-    if out.strip():
-        print("refusing: /repo has uncommitted changes", out)
-        sys.exit(2)
-    sh(f"git -C /repo apply {patch}")
+    # ---- against the checks: a scratch worktree + a copy of /verif, bind-mounted over /repo and /verif in a private
+    # mount namespace (tools/eval_patch.py), so /repo and /verif themselves stay untouched and several evaluations can run
+    # side by side. (Earlier waves applied the patch to /repo itself and undid it afterwards; same commands, same paths.)
+    slot = os.environ.get("EVAL_SLOT", f"seed_{os.getpid()}")
+    here = os.path.dirname(os.path.abspath(__file__))
+    ids = [pid]
+    if run_all:
+        ids += [f"C{n:02d}" for n in range(1, 21) if f"C{n:02d}" != pid]
     detected = {}
+    rc, out = sh(f"python3 {here}/eval_patch.py {slot} {patch} --ids {','.join(ids)}", timeout=14400)
     try:
-        ids = [pid]
-        if run_all:
-            ids += [f"C{n:02d}" for n in range(1, 21) if f"C{n:02d}" != pid]
-        for i in ids:
-            t0 = time.time()
-            rc, out = sh(f"./check {i} quick", cwd="/verif", timeout=3600)
-            lines = [l for l in out.splitlines() if l.startswith("VIOLATION") or "signature" in l or l.startswith("INCONCLUSIVE")]
-            detected[i] = {"tier": "quick", "exit": rc, "wall_s": round(time.time() - t0, 1), "lines": lines[:6]}
-            if i == pid and (rc != 1 or force_thorough):
-                t0 = time.time()
-                rc2, out2 = sh(f"./check {i} thorough", cwd="/verif", timeout=7200)
-                lines2 = [l for l in out2.splitlines() if l.startswith("VIOLATION") or "signature" in l or l.startswith("INCONCLUSIVE")]
-                detected[i + "-thorough"] = {"tier": "thorough", "exit": rc2, "wall_s": round(time.time() - t0, 1), "lines": lines2[:6]}
-    finally:
-        sh("git -C /repo checkout -- .")
-        # evidence files were rewritten by runs against a mutated tree: restore the committed ones
-        sh("git -C /verif checkout -- evidence")
+        ej = json.loads(out[out.index("{"):])
+    except Exception:
+        ej = {"error": out[-500:]}
+    if "checks" not in ej:
+        res["eval_patch_error"] = ej
+        print(json.dumps(res, indent=1))
+        return
+    for i, v in ej["checks"].items():
+        detected[i] = {"tier": "quick", "exit": v["exit"], "lines": v["lines"][:6]}
+    if detected.get(pid, {}).get("exit") != 1 or force_thorough:
+        rc, out = sh(f"python3 {here}/eval_patch.py {slot} {patch} --ids {pid} --tier thorough", timeout=14400)
+        try:
+            ej2 = json.loads(out[out.index("{"):])
+            v = ej2["checks"][pid]
+            detected[pid + "-thorough"] = {"tier": "thorough", "exit": v["exit"], "lines": v["lines"][:6]}
+        except Exception:
+            detected[pid + "-thorough"] = {"tier": "thorough", "exit": 2, "lines": [out[-300:]]}
     res["checks"] = detected
     res["caught_by_own_check_quick"] = detected.get(pid, {}).get("exit") == 1
     res["caught_by_own_check_thorough"] = detected.get(pid + "-thorough", {}).get("exit") == 1
